@@ -12,11 +12,9 @@ def load_claims():
     d = os.path.join(VERIF, "harness", "props")
     for fn in sorted(os.listdir(d)):
         if fn.startswith("c") and fn.endswith(".py"):
-            import subprocess
-            tracked = subprocess.run(["git", "-C", VERIF, "ls-files", "--error-unmatch", os.path.join("harness", "props", fn)],
-                                     stdout=subprocess.DEVNULL, stderr=subprocess.DEVNULL).returncode == 0
-            if not tracked:
-                continue      # work in progress: not claimed until it is integrated (committed)
+            integrated = json.load(open(os.path.join(VERIF, "claims.json")))["integrated"]
+            if fn[:-3].upper() not in integrated:
+                continue      # work in progress: not claimed until it is integrated (reviewed, passing, listed in claims.json)
             tree = ast.parse(open(os.path.join(d, fn)).read())
             for node in tree.body:
                 if isinstance(node, ast.Assign) and len(node.targets) == 1 and getattr(node.targets[0], "id", None) == "MANIFEST":
